@@ -213,7 +213,8 @@ pub struct ReqGen {
     pub extreme_ids: bool,
 }
 
-const EXTREME_IDS: [u64; 16] = [0, 1, 1 << 63, u64::MAX, (1 << 63) - 1, 1 << 31, u64::MAX - 1, (1 << 63) + 1, 2, 3, 1 << 32, (1 << 32) - 1, 1 << 62, 42, 255, 256];
+// (the first three are what the small histories use: both sides of the signed boundary)
+const EXTREME_IDS: [u64; 16] = [u64::MAX, (1 << 63) + 1, 0, 1 << 63, (1 << 63) - 1, 1 << 31, u64::MAX - 1, 1, 2, 3, 1 << 32, (1 << 32) - 1, 1 << 62, 42, 255, 256];
 
 impl ReqGen {
     pub fn new(rng: StdRng, span_ms: u64, allow_dup_ids: bool) -> Self {
@@ -458,6 +459,129 @@ pub fn c02(args: &Args) {
 }
 
 // ---------------------------------------------------------------------------
+// C08 at the actor level: a purge racing a re-put on a node with slow storage
+// ---------------------------------------------------------------------------
+
+/// A keyspace actor over storage whose writes take d virtual ms (never fail). A document is put and
+/// deleted by origin n; both sources then see n more than a forgiveness period past the delete, so the
+/// tombstone is purgeable. A purge request and - g ms later - a NEWER put of the same id (and puts of
+/// other ids) are sent without waiting for each other. Afterwards: every live id of the LWW model is
+/// live in storage with its bytes (purging removes only tombstones), set == store.
+async fn c08_actor_case(seed: u64, i: u64) -> CaseOut {
+    let mut out = CaseOut::default();
+    let mut rng = rng_for(seed, 0xC08_AC7, i);
+    let ctl = Ctl::new(1);
+    let addr = scen_addr(48, i);
+    let node = match ActorNode::start(Arc::new(MemStore::default()), ctl.clone(), addr, false).await {
+        Ok(n) => n,
+        Err(e) => {
+            out.inconclusive = Some(e);
+            return out;
+        },
+    };
+    let ksn = "purge-race";
+    let ks = node.group.get_or_create_keyspace(ksn).await;
+    let hour = 3_600_000u64;
+    let t0 = 60_000_000u64 + rng.gen_range(0..1_000u64) * 4;
+    let n_ids = rng.gen_range(1..=3u64);
+    let origin = 7u8;
+    // put + delete of every id by one origin, then that origin is seen well past the deletes on both sources
+    for id in 0..n_ids {
+        let _ = ks.send(ecv::Set { source: 0, doc: doc(id, ts(t0 + id * 8, 0, origin)), ctx: None, _marker: PhantomData }).await;
+        let _ = ks.send(ecv::Del { source: rng.gen_range(0..2), doc: DocumentMetadata::new(id, ts(t0 + 1_000 + id * 8, 0, origin)), _marker: PhantomData }).await;
+    }
+    for src in 0..2 {
+        let _ = ks.send(ecv::Set { source: src, doc: doc(100 + src as u64, ts(t0 + 2 * hour + src as u64 * 4, 0, origin)), ctx: None, _marker: PhantomData }).await;
+    }
+    let before = store_listing(node.store.as_ref(), ksn).await.map(|l| l.1.len()).unwrap_or(0);
+    let d = *[1i64, 3, 10, 40].choose(&mut rng).unwrap();
+    ctl.slow_ms.store(d, Ordering::SeqCst);
+    // the purge and the re-puts travel independently
+    let purge = {
+        let ks = ks.clone();
+        tokio::spawn(async move { ks.send(ecv::PurgeDeletes(PhantomData)).await.is_ok() })
+    };
+    let mut reputs = Vec::new();
+    let mut expect_live: BTreeMap<Key, HLCTimestamp> = BTreeMap::new();
+    for id in 0..n_ids {
+        if rng.gen_bool(0.7) {
+            let gap = rng.gen_range(0..=(2 * d) as u64);
+            let stamp = ts(t0 + 3 * hour + id * 4, 0, rng.gen_range(2..6));
+            expect_live.insert(id, stamp);
+            let ks = ks.clone();
+            let src = rng.gen_range(0..2);
+            reputs.push(tokio::spawn(async move {
+                tokio::time::sleep(Duration::from_millis(gap)).await;
+                ks.send(ecv::Set { source: src, doc: doc(id, stamp), ctx: None, _marker: PhantomData }).await.is_ok()
+            }));
+        }
+    }
+    let _ = purge.await;
+    for r in reputs {
+        let _ = r.await;
+    }
+    // whatever the purge still has in flight gets time to finish
+    tokio::time::sleep(Duration::from_millis(20 * d as u64 + 50)).await;
+    ctl.slow_ms.store(0, Ordering::SeqCst);
+    let (live, dead) = match store_listing(node.store.as_ref(), ksn).await {
+        Ok(l) => l,
+        Err(e) => {
+            out.inconclusive = Some(e);
+            node.stop();
+            return out;
+        },
+    };
+    out.count("purges_racing_a_reput", 1);
+    out.count("tombstones_purged_by_the_racing_purge", before.saturating_sub(dead.len()) as u64);
+    out.count("reputs_of_purged_ids", expect_live.len() as u64);
+    out.nontrivial = Some(hash_of(&("purge-race", i)));
+    let desc = |extra: Value| json!({"storage_write_takes_ms": d, "ids": n_ids, "re_put": expect_live.iter().map(|(k, t)| json!([k, ts_json(*t)])).collect::<Vec<_>>(),
+        "store_live": live.iter().map(|e| json!([e.0, ts_json(e.1)])).collect::<Vec<_>>(), "store_tombstones": dead.iter().map(|e| json!([e.0, ts_json(e.1)])).collect::<Vec<_>>(), "observed": extra});
+    for (id, stamp) in &expect_live {
+        if !live.contains(&(*id, *stamp)) {
+            out.violate("C08:live-document-removed-from-storage-by-a-purge", desc(json!({"id": id, "expected_live_at": ts_json(*stamp)})));
+            break;
+        }
+        match node.store.get(ksn, *id).await {
+            Ok(Some(dv)) if dv.last_updated() == *stamp => {},
+            other => {
+                out.violate("C08:live-document-not-readable-after-a-purge", desc(json!({"id": id, "get": format!("{:?}", other.map(|o| o.map(|d| d.last_updated())))})));
+                break;
+            },
+        }
+    }
+    if let Ok(Some(diff)) = agreement(&ks, node.store.as_ref(), ksn).await {
+        out.violate("C08:set-and-store-disagree-after-a-purge-raced-a-put", desc(diff));
+    }
+    if !out.violations.is_empty() {
+        out.replay = Some(json!({"mode": "purge-race", "seed": seed, "index": i}));
+    }
+    node.stop();
+    out
+}
+
+pub fn c08_actor(args: &Args) {
+    let mut report = Report::new(
+        args,
+        "E1-actor",
+        "a real keyspace actor over storage whose writes take 1/3/10/40 virtual ms (never fail): 1-3 documents are put and deleted by one origin, both sources then see that origin more than a forgiveness period past the deletes (tombstones purgeable); a purge request and, 0..2d ms later, NEWER puts of the same ids travel to the actor independently. Afterwards every re-put id must be live in storage with its stamp and readable (purging removes only tombstones, never a live document), and set == store. Non-trivial: every case; distinct = distinct cases.",
+    );
+    if let Some(path) = &args.replay {
+        let r = read_replay(path);
+        report.absorb(block_on_paused(c08_actor_case(r["seed"].as_u64().unwrap(), r["index"].as_u64().unwrap())));
+        report.finish(args);
+        return;
+    }
+    let seed = args.seed;
+    let n = args.pick(20_000, 1_000_000);
+    run_cases(&mut report, n, args.threads, Duration::from_secs(args.pick(60, 900)), |i| block_on_paused(c08_actor_case(seed, i)));
+    report.floor("purges_racing_a_reput", 5_000);
+    report.floor("tombstones_purged_by_the_racing_purge", 5_000);
+    report.floor("reputs_of_purged_ids", 5_000);
+    report.finish(args);
+}
+
+// ---------------------------------------------------------------------------
 // C07
 // ---------------------------------------------------------------------------
 
@@ -521,7 +645,7 @@ async fn c07_phase1<I: Backing>(rng: &mut StdRng, i: u64, out: &mut CaseOut, inn
     let hour_scale = rng.gen_bool(0.5);
     let mut g = ReqGen::new(StdRng::seed_from_u64(rng.gen()), if hour_scale { 30_000_000 } else { 3_000_000 }, false);
     // one history in four works on a larger state (up to 16 ids per keyspace, up to 40 requests)
-    let large = i % 4 == 1;
+    let large = i % 4 == 1 || i % 16 == 8; // (the second term gives the SQLite share, i % 8 == 0, large histories too)
     if large {
         g.keys = 16;
     }
